@@ -460,3 +460,7 @@ Definition out_format (fs : list fmt) : option ofmt :=
       end
     else Some OutCoo
   end.
+
+(* get_result returns the empty COO directly (no .asformat(out_type)) when an extent is 0 *)
+Definition result_format (o : ofmt) (sh : shape) : ofmt :=
+  if existsb (Z.eqb 0) sh then OutCoo else o.
